@@ -28,7 +28,7 @@ CLAIMS = {
             "uninterpreted CRC function with definitional instances; burst/double-bit detection beyond two adjacent bytes is a property of the polynomial and only partly mechanised (thorough tier: affine lemma)."),
     "C07": ("proof", "Safety core as local contracts of every coroutine of socket.py under interference: _connect attempts only while open, closes a connection that completes after close()/another connect, retries after exactly 2.0 s, always starts the read loop on the connected path; _disconnect closes the connection it held before anything else runs; reset_connection disconnects then schedules one connect; _read/_drain/_connect/_disconnect let no exception out given the codec exception contracts; every failed frame resets.",
             "'at most one open connection, every abandoned one closed' is closed over histories by lemmas/Conn.lean (Lean 4) from the _connect / _disconnect contracts; liveness ('within bounded time once the network behaves') remains an on-paper ranking argument: out of reach of contracts; asyncio models (validated on samples, lib.* sets); external cancellation excluded."),
-    "C08": ("proof", "Deadline invariant proved on the real _heartbeat_timeout_loop with a ghost clock: when == L + timeout at every wait (armed at (re)start and after every expiry, pushed back in the same step a response is seen), expiry resets iff connected, no other call site of reset_connection; one heartbeat per interval with RETRY_CONNECTED iff connected; defaults 300/330 s; start/stop idempotent.",
+    "C08": ("proof", "Deadline invariant proved on the real _heartbeat_timeout_loop with a ghost clock: when == L + timeout at every wait (armed at (re)start and after every expiry, pushed back in the same step a response is seen), expiry resets iff connected, no other call site of reset_connection; one heartbeat per interval with RETRY_CONNECTED iff connected - and the heartbeat task survives a send that the socket refuses (NotOpenError / QueueOverflowError: the caller is checked against send's full contract); defaults 300/330 s; start/stop idempotent.",
             "asyncio.timeout / Event.wait / gather modelled as in pyvc/aio.py (trusted)."),
     "C09": ("proof", "Transition contract of the real _message_received of both generations for every (state, frame shape, to-address) triple: next state, the single next request of the fixed order (version, names, abilities, AC status, timer status, zone status) sent with RETRY_CONNECTED after the state was advanced, the model update that receives the frame, completion effects (heartbeat start, AT4 poll task, initialised flag); every other pair changes nothing and sends nothing; AT5 echo rule only for to-address 0xB0. init(): subscriptions before open_socket, waits at most 5.0 s, returns the initialised flag, never raises. Model building (names, abilities incl. AT4 bitmap / single-AC / range fallbacks) on enumerated installations (bounded).",
             "that a console answering every request drives the six transitions is the environment's liveness; model building is enumerated over small installations (bounded stand-in); asyncio.wait_for model."),
@@ -40,9 +40,9 @@ CLAIMS = {
             "subscriber model: async callables that may suspend/raise Exception; as_completed yields each awaitable once (validated on samples); 'notified iff the step changes what the entity exposes' over histories is lemmas/LastWriter.lean."),
     "C13": ("proof", "_read_one_message touches the transport only through readexactly(header_length), readexactly(announced length), readexactly(2) on the reader current at entry, consecutive cursor; _read delivers exactly what it read.",
             "segmentation independence of StreamReader.readexactly itself is an assumed library contract; cursor lemma on paper."),
-    "C14": ("proof", "_connection_changed(connected=True) outside the first handshake step sends AC-status then zone/group-status requests with RETRY_CONNECTED and keeps the state (all states), a disconnection sends nothing; the socket notifies connected=True before draining (socket._connect contract); AT4 _group_status_request_loop satisfies the same deadline invariant as the heartbeat with T = 300 s armed from the start and re-armed after every expiry, on expiry one GroupStatusRequest iff connected; the event is set only by group status in CONNECTED; unchanged data notifies nobody (update contracts).",
+    "C14": ("proof", "_connection_changed(connected=True) outside the first handshake step sends AC-status then zone/group-status requests with RETRY_CONNECTED and keeps the state (all states), a disconnection sends nothing; the socket notifies connected=True before draining (socket._connect contract); AT4 _group_status_request_loop satisfies the same deadline invariant as the heartbeat with T = 300 s armed from the start and re-armed after every expiry, on expiry one GroupStatusRequest iff connected, and the task survives a refused send; the event is set only by group status in CONNECTED; unchanged data notifies nobody (update contracts).",
             "asyncio.timeout / Event models; convergence of the model to the console's answers is C10 applied to those answers."),
-    "C15": ("proof", "shutdown() of both AirTouch objects: state CLOSED, not initialised, heartbeat stopped, AT4 poll task cancelled and awaited, socket closed, model dropped, nothing sent (all states). Inertness after close as site obligations: _connect is a no-op on a closed socket, a connection completing after close() is closed and not adopted, no retry is scheduled once closed, send on a closed socket raises NotOpenError without holding anything, close() leaves is_open False and schedules nothing; heartbeat stop cancels and awaits both tasks.",
+    "C15": ("proof", "shutdown() of both AirTouch objects: state CLOSED, not initialised, heartbeat stopped, AT4 poll task cancelled and awaited, socket closed, model dropped, nothing sent (all states). Inertness after close as site obligations: _connect is a no-op on a closed socket, a connection completing after close() is closed and not adopted, no retry is scheduled once closed, send on a closed socket raises NotOpenError without holding anything, close() marks the socket not open before it first suspends and schedules nothing; a handshake step that was suspended in its model update while shutdown() ran does nothing when it resumes (no state change, no request, no heartbeat, no task, not initialised); heartbeat stop cancels and awaits both tasks. History lemma Conn.closed_is_final (Lean 4): from the moment close()'s disconnect has run until open_socket() is called again no connection is held or open, whatever attempts, resets and read failures complete meanwhile.",
             "quiescence 'no task remains' is proved as inertness of the socket coroutines after close, not as an empty schedule; re-init = the init contract holds from the CLOSED post-state of shutdown."),
     "C16": ("proof", "_enqueue_message: purge precedes the capacity test, an eleventh unexpired message raises QueueOverflowError leaving exactly the unexpired old ones in order, otherwise the new entry is appended last; not-open sends raise NotOpenError and hold nothing. Proved for every queue length by a loop contract over an SMT sequence with a recursive purge function (socket._enqueue_message.any-length, cvc5); additionally enumerated for lengths 0..6 and 9..11 (thorough 7..11) with every expiry pattern, labelled bounded, for natively replayable counterexamples.",
             "the any-length proof abstracts the deque as a mathematical sequence (del q[i] = sequence deletion); the purge axiom is quantified (cvc5 decides it; z3 does not)."),
